@@ -579,15 +579,16 @@ def rule_drop_shuffle(F, R):
         for x in f.nodes():
             a = assignment(x)
             if a and "m_feature_infos" in pp(a[0]):
-                out.append((pp(a[0]), literal_value(a[1])))
+                out.append((pp(a[0]), literal_value(a[1]), a[2]))
         return out
 
-    def const_tested(f):
-        out = []
-        for x in f.nodes():
-            if x["k"] == "bin" and x["op"] == "==" and "m_feature_infos" in pp(x["c"][0]):
-                out.append((pp(x["c"][0]), literal_value(x["c"][1])))
-        return out
+    def apply(w, s_):
+        """the flag byte after the write w when it held s_ before"""
+        v, op = w[1], w[2]
+        if v is None:
+            return None
+        return {"=": v, "|=": s_ | v, "&=": s_ & v, "^=": s_ ^ v, "+=": (s_ + v) & 0xFF, "-=": (s_ - v) & 0xFF}.get(op)
+
     try:
         drop, undrop, shuffle, unshuffle = g["drop"][0], g["undrop"][0], g["shuffle"][0], g["unshuffle"][0]
         should = g["should_drop"][0]
@@ -596,13 +597,66 @@ def rule_drop_shuffle(F, R):
     except (KeyError, IndexError):
         raise AnalysisBroken("generator_t drop/shuffle API not found")
     wd, ws = const_written(drop), const_written(shuffle)
-    td, ts = const_tested(should), const_tested(sh1)
-    okf = len(wd) == 1 and len(ws) == 1 and len(td) == 1 and len(ts) == 1 and wd[0][1] == td[0][1] and ws[0][1] == ts[0][1] and wd[0][1] != ws[0][1] and \
-        wd[0][0] == "m_feature_infos(%s)" % drop.params[0]["n"] and ws[0][0] == "m_feature_infos(%s)" % shuffle.params[0]["n"] and \
-        td[0][0] == "m_feature_infos(%s)" % should.params[0]["n"] and ts[0][0] == "m_feature_infos(%s)" % sh1.params[0]["n"] and wd[0][1] not in (0, None) and ws[0][1] not in (0, None)
-    R.check(okf, "R-C08-10", "flag values", drop.loc(), "drop writes the value should_drop tests, shuffle the value shuffled() tests, for the given feature",
-            "drop/shuffle flags disagree: drop writes %s, should_drop tests %s; shuffle writes %s, shuffled tests %s" % (wd, td, ws, ts))
-    okr = all([v for _, v in const_written(f)] == [0] and "m_feature_infos.array()" in const_written(f)[0][0] for f in (undrop, unshuffle))
+
+    def flag_read(n, f):
+        n = skip(n)
+        while n["k"] == "cast" and n.get("c"):
+            n = skip(n["c"][0])
+        return n["k"] == "call" and pp(n) == "m_feature_infos(%s)" % f.params[0]["n"]
+
+    def predicate(n, f, s_):
+        """value of the reader's test when the feature's flag byte holds s_ (None: not interpretable)"""
+        n = skip(n)
+        while n["k"] in ("cast", "paren") and n.get("c") and not flag_read(n, f):
+            n = skip(n["c"][0])
+        if flag_read(n, f):
+            return s_
+        if n["k"] == "int":
+            return n["v"]
+        if n["k"] == "bool":
+            return bool(n["v"])
+        if n["k"] == "un" and n.get("op") in ("!", "~"):
+            v = predicate(n["c"][0], f, s_)
+            return None if v is None else ((not v) if n["op"] == "!" else (~v) & 0xFF)
+        if n["k"] == "bin" and n["op"] in ("==", "!=", "&", "|", "^", "<", "<=", "&&", "||"):
+            u, v = predicate(n["c"][0], f, s_), predicate(n["c"][1], f, s_)
+            if u is None or v is None:
+                return None
+            return {"==": u == v, "!=": u != v, "&": int(u) & int(v), "|": int(u) | int(v), "^": int(u) ^ int(v), "<": u < v, "<=": u <= v, "&&": bool(u) and bool(v),
+                    "||": bool(u) or bool(v)}[n["op"]]
+        return None
+    rets = [x for x in should.nodes() if x["k"] == "return" and x.get("c")]
+    ifs = [x for x in sh1.nodes() if x["k"] == "if"]
+    pd = (lambda s_: predicate(rets[0]["c"][0], should, s_)) if len(rets) == 1 else None
+    ps = (lambda s_: predicate(ifs[0]["c"][ifs[0]["r"].index("cond")], sh1, s_)) if len(ifs) == 1 else None
+    okw = len(wd) == 1 and len(ws) == 1 and wd[0][0] == "m_feature_infos(%s)" % drop.params[0]["n"] and ws[0][0] == "m_feature_infos(%s)" % shuffle.params[0]["n"]
+    if not okw or pd is None or ps is None or any(apply(w[0], s_) is None for w in (wd, ws) for s_ in (0, 1)) or pd(0) is None or ps(0) is None:
+        R.check(False, "R-C08-10", "flag values", drop.loc(), "", "drop / shuffle no longer write the given feature's flag with a constant, or the readers do not test that flag: "
+                "drop writes %s, shuffle writes %s" % (wd, ws))
+    else:
+        # the byte holds the feature's state; whatever its earlier history, drop(f) must leave a state should_drop accepts and shuffle(f) one
+        # shuffled() accepts: closure of the reachable states under {drop, shuffle}; the undo state 0 is accepted by neither reader
+        reach, todo = {0}, [0]
+        while todo:
+            s_ = todo.pop()
+            for w in (wd[0], ws[0]):
+                n_ = apply(w, s_)
+                if n_ not in reach:
+                    reach.add(n_)
+                    todo.append(n_)
+        bad = None
+        for name, w, prd, reader in (("drop", wd[0], pd, "should_drop"), ("shuffle", ws[0], ps, "shuffled")):
+            for s_ in sorted(reach):
+                if not prd(apply(w, s_)) and bad is None:
+                    bad = "after %s(f) on a feature whose flag was %d the flag is %d, which %s() does not accept: the feature is neither missing nor shuffled and both views " \
+                          "return the stored values" % (name, s_, apply(w, s_), reader)
+        if bad is None and (pd(0) or ps(0)):
+            bad = "the cleared flag 0 already counts as dropped / shuffled"
+        if bad is None and (pd(apply(ws[0], 0)) or ps(apply(wd[0], 0))):
+            bad = "shuffling a feature marks it dropped (or dropping marks it shuffled)"
+        R.check(bad is None, "R-C08-10", "flag values", drop.loc(), "for every reachable earlier state %s: drop(f) leaves a state should_drop(f) accepts, shuffle(f) one shuffled(f) accepts; "
+                "the cleared state is accepted by neither, each marks only its own condition" % sorted(reach), bad or "")
+    okr = all([(w[1], w[2]) for w in const_written(f)] == [(0, "=")] and "m_feature_infos.array()" in const_written(f)[0][0] for f in (undrop, unshuffle))
     okr = okr and any(pp(c) == "m_feature_shuffles.clear()" for c in unshuffle.calls())
     R.check(okr, "R-C08-10", "undo", undrop.loc(), "undrop / unshuffle reset every feature's flag (and forget the permutations)", "undrop/unshuffle do not reset all flags")
     # the permutation: arange over all samples, shuffled as a whole, stored under the feature's index
